@@ -29,6 +29,8 @@ package proto
 //@ func toStarlark1
 //@   prop C20
 //@   requires shared_flag: !calleralloc(frozen) || *frozen
+//@   ensures unsigned_read_back_exactly: (isU32(fkind(typ)) || isU64(fkind(typ))) && 0 <= pnum(x) && pnum(x) <= MAXU64 ==> typeis(result, starlark.Int) && val(as(result, starlark.Int)) == pnum(x)
+//@   ensures signed_read_back_exactly: (isI32(fkind(typ)) || isI64(fkind(typ))) && MIN64 <= pnum(x) && pnum(x) <= MAX64 ==> typeis(result, starlark.Int) && val(as(result, starlark.Int)) == pnum(x)
 
 // ---- mutators respect freezing and iteration (C20, C04/C06 for proto wrappers): every write into
 // the underlying protoreflect message, list or map happens only while the shared flag of the
@@ -72,3 +74,7 @@ package proto
 // ---- determinism and thread-compatibility (C03, C05): no function of the package writes a
 // package-level variable at run time (what one execution left there another would read)
 //@ globals_readonly [C03,C05] none
+
+// ---- binary encoding (C20): proto.marshal encodes with the default options; in particular it
+// never trusts cached sizes (UseCachedSize), which are stale after any edit of a sub-message
+//@ reads_not [C20] marshal : google.golang.org/protobuf/proto.MarshalOptions.Marshal, google.golang.org/protobuf/proto.MarshalOptions.MarshalAppend
